@@ -328,6 +328,30 @@ class Session(BusSession):
                 self.age[n] += op[1]
             self.advance(op[1])
             self.settle()
+            # a timer that fires may kill a started process; what the bus does when it notices that death belongs to THIS
+            # operation: wait until neither the set of live stub processes nor the bus's state moves any more
+            self.start_log()
+            allp = [p_ for ps in self.pids.values() for p_ in ps]
+
+            def alive():
+                out_ = []
+                for p_ in allp:
+                    try:
+                        os.kill(p_, 0)
+                        out_.append(p_)
+                    except ProcessLookupError:
+                        pass
+                    except PermissionError:
+                        out_.append(p_)
+                return out_
+            last, same = None, 0
+            t_end = time.time() + 12.0
+            while same < 4 and time.time() < t_end:
+                self.settle()
+                cur = (self.bus.dump(), tuple(alive()))
+                same = same + 1 if cur == last else 0
+                last = cur
+                time.sleep(0.004)
             for n in list(self.pending):
                 if self.age.get(n, 0) > TIMEOUT:
                     self.waiters_expect_error(n, want)
